@@ -18,7 +18,7 @@ pub const VALIDATORS: &[&str] = &[
 
 pub const KNOWN_EXTENSIONS: &[&str] = &[
     "py", "rb", "sh", "rs", "js", "go", "ts", "toml", "yaml", "yml", "java", "c", "cpp", "cs", "kt", "swift",
-    "php",
+    "php", "md", "markdown", "html",
 ];
 
 #[derive(Clone, Debug, PartialEq, Eq, PartialOrd, Ord, serde::Serialize, serde::Deserialize)]
